@@ -122,8 +122,20 @@ func genC19(t *rapid.T) C19Case {
 				}
 			case 6:
 				// ---@class block followed by its variable
-				cn := name("Cls")
-				b.WriteString("---@class " + cn + "\n---@field fa number\n---@field fb string\n")
+				// one to three ---@class declarations back to back in one comment block, then the variable
+				nc := rapid.IntRange(1, 3).Draw(t, "nclasses")
+				prev := ""
+				for k := 0; k < nc; k++ {
+					cn := name("Cls")
+					hdr := "---@class "
+					c.Decls = append(c.Decls, C19Decl{File: fi, Name: cn, Kind: "class", Off: b.Len() + len(hdr), Global: true})
+					b.WriteString(hdr + cn)
+					if prev != "" && rapid.Bool().Draw(t, "classParent") {
+						b.WriteString(" : " + prev)
+					}
+					b.WriteString("\n---@field fa number\n")
+					prev = cn
+				}
 				add("local", "", name("Cv"), false, "local ", " = {}\n")
 			default:
 				// table constructor with function fields
